@@ -802,7 +802,7 @@ def tasks_for(tier):
             mode = "cold" if (j + wi) % 4 == 0 else "sparse"
             tasks.append((_cfg(kinds, SIZES_QUICK[(j + wi) % 5], w, True, mode), 2, full, 12))
     if not quick:
-        for j, kinds in enumerate(CURATED[2::6]):
+        for j, kinds in enumerate(CURATED[2::12]):
             tasks.append((_cfg(kinds, (3, 2 + j % 3), WALKERS[j % 3], True, "sparse"), 3, DEEP_OPTS, 200))
     # 3. deeper histories on the reduced alphabet
     deep_lists = CURATED[12::10] if quick else [CURATED[i] for i in (14, 26, 27, 39, 45)]
